@@ -60,37 +60,77 @@ def check_ratios(run, A):
     run.check(ok, 'IDENT', '_sxr: 10 log10(S / X)', fn.loc(), '', '_sxr is not the pure ratio 10*log10(S / X)', construct=f'IDENT::{q}::ratio')
 
 
+def _dim_of(t, pname, index):
+    """t == <pname>.shape unpacked at position `index` (of 3)"""
+    t = strip_views(t)
+    return t.op == 'unpack' and t.args[1] == index and t.args[0].op == 'attr' and t.args[0].args[1] == 'shape' and strip_views(t.args[0].args[0]).op == 'param' \
+        and strip_views(t.args[0].args[0]).args[0] == pname
+
+
+def _range_over(t, pred):
+    t = strip_views(t)
+    return is_call_to(t, 'builtin.range') and len(call_parts(t)[1]) == 1 and pred(call_arg(t, 0))
+
+
+def _loop_elem(t):
+    t = strip_views(t)
+    return t if t.op == 'elem' else None
+
+
+def _power_of(t, pname):
+    """t == get_variance_for_zero_mean_signal(<pname>, axis=-1)"""
+    t = strip_views(t)
+    return call_parts(t)[0] == S + 'get_variance_for_zero_mean_signal' and strip_views(call_arg(t, 0)).op == 'param' and strip_views(call_arg(t, 0)).args[0] == pname \
+        and const_val(call_arg(t, None, 'axis')) == -1
+
+
 def check_self_exclusion(run, A):
-    # input_sxr: I[k, d] = sum(S[[n for n in range(K) if n != k], d])
+    # input_sxr: I[k, d] = sum(S[[n for n in range(K) if n != k], d], axis=0)
     q = S + 'input_sxr'
     fn = A.prog.func(q)
+    g = A.graphs.get(fn)
     ok = False
-    for node in ast.walk(fn.node):
-        if isinstance(node, ast.Assign) and isinstance(node.targets[0], ast.Subscript) and isinstance(node.targets[0].slice, ast.Tuple):
-            tgt = node.targets[0]
-            k = tgt.slice.elts[0]
-            comps = [c for c in ast.walk(node.value) if isinstance(c, ast.ListComp)]
-            for c in comps:
-                gen = c.generators[0]
-                if len(gen.ifs) == 1 and isinstance(gen.ifs[0], ast.Compare) and isinstance(gen.ifs[0].ops[0], ast.NotEq):
-                    l, r = gen.ifs[0].left, gen.ifs[0].comparators[0]
-                    names = {ast.unparse(l), ast.unparse(r)}
-                    full = ast.unparse(gen.iter).replace(' ', '') == 'range(K)'
-                    ok = isinstance(k, ast.Name) and names == {k.id, ast.unparse(gen.target)} and full and isinstance(c.elt, ast.Name) and c.elt.id == ast.unparse(gen.target)
+    for e in g.events:
+        if e.kind != 'store' or e.term.args[1].op != 'tuple' or len(e.term.args[1].args[0]) != 2:
+            continue
+        k, d = (_loop_elem(x) for x in e.term.args[1].args[0])
+        val = strip_views(e.term.args[2])
+        if k is None or d is None or not is_call_to(val, 'numpy.sum'):
+            continue
+        src = strip_views(call_arg(val, 0))
+        if src.op != 'sub' or not _power_of(src.args[0], 'images') or src.args[1].op != 'tuple' or len(src.args[1].args[0]) != 2:
+            continue
+        rows, col = src.args[1].args[0]
+        rows = strip_views(rows)
+        if rows.op != 'comp' or strip_views(col) is not d:
+            continue
+        kind, elts, iters, conds = rows.args
+        full = len(iters) == 1 and _range_over(iters[0], lambda x: _dim_of(x, 'images', 0))
+        elt_is_n = len(elts) == 1 and strip_views(elts[0]).op == 'elem' and strip_views(elts[0]).args[0] is iters[0]
+        cond_ok = len(conds) == 1 and conds[0].op == 'cmp' and conds[0].args[0] == 'NotEq' and \
+            {id(strip_views(conds[0].args[1])), id(strip_views(conds[0].args[2]))} == {id(strip_views(elts[0])), id(k)}
+        k_full = _range_over(k.args[0], lambda x: _dim_of(x, 'images', 0))
+        ok = full and elt_is_n and cond_ok and k_full and const_val(call_arg(val, None, 'axis')) in (0, NOVAL)
     run.check(ok, 'SELF', 'input_sxr: interference of source k sums all sources n != k', fn.loc(), '', 'the interference power of source k does not exclude exactly the own source',
               construct=f'SELF::{q}::exclusion')
     q = S + 'output_sxr'
     fn = A.prog.func(q)
+    g = A.graphs.get(fn)
     ok = False
-    for node in ast.walk(fn.node):
-        if isinstance(node, ast.Assign) and isinstance(node.targets[0], ast.Subscript):
-            k = node.targets[0].slice
-            dels = [c for c in ast.walk(node.value) if isinstance(c, ast.Call) and ast.unparse(c.func).endswith('delete')]
-            for c in dels:
-                if len(c.args) >= 2 and isinstance(k, ast.Name) and isinstance(c.args[1], ast.Name) and c.args[1].id == k.id:
-                    ax = [kw.value for kw in c.keywords if kw.arg == 'axis']
-                    col = ast.unparse(c.args[0]).replace(' ', '')
-                    ok = (not ax or ast.unparse(ax[0]) == '0') and col.startswith('S[:,selection[') and f'[{k.id}]' in col
+    for e in g.events:
+        if e.kind != 'store':
+            continue
+        k = _loop_elem(e.term.args[1])
+        val = strip_views(e.term.args[2])
+        if k is None or not is_call_to(val, 'numpy.sum'):
+            continue
+        dl = strip_views(call_arg(val, 0))
+        if not is_call_to(dl, 'numpy.delete'):
+            continue
+        col, idx = strip_views(call_arg(dl, 0)), strip_views(call_arg(dl, 1))
+        okc = col.op == 'sub' and _power_of(col.args[0], 'image_contribution') and col.args[1].op == 'tuple' and len(col.args[1].args[0]) == 2 \
+            and strip_views(col.args[1].args[0][0]).op == 'slice' and strip_views(col.args[1].args[0][1]).op == 'sub' and strip_views(strip_views(col.args[1].args[0][1]).args[1]) is k
+        ok = okc and idx is k and const_val(call_arg(dl, None, 'axis')) in (0, NOVAL)
     run.check(ok, 'SELF', 'output_sxr: interference at the selected output excludes the own source', fn.loc(), '',
               'II[k] is not the sum of S[:, selection[k]] with row k deleted', construct=f'SELF::{q}::exclusion')
 
@@ -102,29 +142,57 @@ def check_selection(run, A):
     perms = [e.term for e in g.events if e.kind == 'call' and is_call_to(e.term, 'itertools.permutations')]
     ok = bool(perms)
     if ok:
-        rng = strip_views(call_arg(perms[0], 0))
         r = call_arg(perms[0], 1, 'r')
-        ok = is_call_to(rng, 'builtin.range') and len(call_parts(rng)[1]) == 1 and strip_views(call_arg(rng, 0)).op == 'unpack' and strip_views(call_arg(rng, 0)).args[4] == 'K_target' \
-            and r is not None and strip_views(r).op == 'unpack' and strip_views(r).args[4] == 'K_source'
+        ok = _range_over(call_arg(perms[0], 0), lambda x: _dim_of(x, 'image_contribution', 1)) and r is not None and _dim_of(r, 'image_contribution', 0)
     run.check(ok, 'R-SEL', 'output_sxr: every selection of K_source out of K_target outputs is enumerated', fn.loc(), '',
-              'the candidate set is not permutations(range(K_target), r=K_source)', construct=f'R-SEL::{q}::enumeration')
+              'the candidate set is not permutations(range(<number of outputs>), r=<number of sources>)', construct=f'R-SEL::{q}::enumeration')
     am = [e.term for e in g.events if e.kind == 'call' and call_parts(e.term)[0] in ('numpy.argmax', 'numpy.argmin')]
     okm = len(am) == 1 and is_call_to(am[0], 'numpy.argmax')
     run.check(okm, 'R-SEL', 'output_sxr: selection MAXIMISES the captured source power', fn.loc(), '', 'selection is not np.argmax of the mutual power', construct=f'R-SEL::{q}::argmax')
-    # selection = all_target_selections[max_idx] and mutual power = sum_k S[k, sel[p, k]]
-    sel_ok = False
-    for node in ast.walk(fn.node):
-        if isinstance(node, ast.Assign) and isinstance(node.value, ast.Subscript) and isinstance(node.targets[0], ast.Name) and node.targets[0].id == 'selection':
-            sel_ok = ast.unparse(node.value).replace(' ', '') == 'all_target_selections[max_idx]'
+    # mutual power[p] = sum_k S[k, selections[p, k]]  and  selection = selections[argmax]
+    sel_arr = None
     mp_ok = False
-    for node in ast.walk(fn.node):
-        if isinstance(node, ast.Assign) and isinstance(node.targets[0], ast.Subscript) and ast.unparse(node.targets[0].value) == 'mutual_power':
-            txt = ast.unparse(node.value).replace(' ', '')
-            mp_ok = 'S[k_source,all_target_selections[p,k_source]]' in txt and 'range(K_source)' in txt and 'sum' in txt
-    run.check(sel_ok and mp_ok, 'R-SEL', 'output_sxr: criterion = sum_k S[k, selection[k]], winner is what is used', fn.loc(), '',
-              f'selection taken from the arg-max: {sel_ok}; mutual power is the captured diagonal power: {mp_ok}', construct=f'R-SEL::{q}::criterion')
-    # noise of the selected outputs
-    nn = any(isinstance(n, ast.Assign) and ast.unparse(n.value).replace(' ', '') == 'N[selection]' for n in ast.walk(fn.node))
+    for e in g.events:
+        if e.kind != 'store':
+            continue
+        pidx = _loop_elem(e.term.args[1])
+        val = strip_views(e.term.args[2])
+        if pidx is None or not is_call_to(val, 'numpy.sum', 'builtin.sum'):
+            continue
+        cp = strip_views(call_arg(val, 0))
+        if cp.op != 'comp':
+            continue
+        kind, elts, iters, conds = cp.args
+        if len(elts) != 1 or len(iters) != 1 or conds:
+            continue
+        el = strip_views(elts[0])
+        if el.op != 'sub' or not _power_of(el.args[0], 'image_contribution') or el.args[1].op != 'tuple' or len(el.args[1].args[0]) != 2:
+            continue
+        k, pick = (strip_views(x) for x in el.args[1].args[0])
+        okk = k.op == 'elem' and k.args[0] is iters[0] and _range_over(iters[0], lambda x: _dim_of(x, 'image_contribution', 0))
+        okp = pick.op == 'sub' and pick.args[1].op == 'tuple' and len(pick.args[1].args[0]) == 2 and strip_views(pick.args[1].args[0][0]) is pidx and strip_views(pick.args[1].args[0][1]) is k
+        if okk and okp:
+            sel_arr = strip_views(pick.args[0])
+            src_ok = perms and any(x is perms[0] for x in walk_terms(sel_arr))
+            mp_ok = bool(src_ok)
+    used_ok = False
+    if sel_arr is not None and am:
+        # the noise and the signal of the chosen outputs are read through selections[argmax(mutual_power)]
+        for e in g.events:
+            if e.kind == 'store':
+                for x in walk_terms(e.term.args[2]):
+                    if x.op == 'sub' and strip_views(x.args[0]) is sel_arr and strip_views(x.args[1]) is am[0]:
+                        used_ok = True
+        arg_ok = any(x.op == 'mu' for x in walk_terms(call_arg(am[0], 0)))
+        used_ok = used_ok and arg_ok
+    run.check(mp_ok and used_ok, 'R-SEL', 'output_sxr: criterion = sum_k S[k, selection[k]], winner is what is used', fn.loc(), '',
+              f'mutual power is the captured diagonal power of an enumerated selection: {mp_ok}; the arg-max selection is the one evaluated: {used_ok}', construct=f'R-SEL::{q}::criterion')
+    # noise power at the selected outputs
+    nn = False
+    for t in [x for e in g.events if e.term is not None for x in walk_terms(e.term)] + list(walk_terms(g.ret)):
+        if t.op == 'sub' and _power_of(t.args[0], 'noise_contribution') and sel_arr is not None:
+            ix = strip_views(t.args[1])
+            nn = nn or (ix.op == 'sub' and strip_views(ix.args[0]) is sel_arr and am and strip_views(ix.args[1]) is am[0])
     run.check(nn, 'R-SEL', 'output_sxr: noise power taken at the selected outputs', fn.loc(), '', 'NN is not N[selection]', construct=f'R-SEL::{q}::noise-selection')
 
 
